@@ -30,7 +30,8 @@ Definition run_gen (l : list Z) : list Z :=
   end.
 
 (* stream "ipl": board-in -> every encoding 0..32767 accepted by IsPseudoLegal, ascending *)
-Definition all_encodings : list N := map N.of_nat (seq 0 32768).
+Fixpoint upto (k : nat) (i : N) : list N := match k with O => [] | S k' => i :: upto k' (N.succ i) end.
+Definition all_encodings : list N := flat_map (fun hi => upto 64 (hi * 64)%N) (upto 512 0%N).
 Definition run_ipl (l : list Z) : list Z :=
   match decode_board l with
   | Some (b, _) => map Z.of_N (filter (is_pseudo_legal b) all_encodings)
